@@ -324,9 +324,10 @@ pub fn param_lists(alpha: &[Param], max_len: usize) -> Vec<Vec<Param>> {
 
 fn run_c05(thorough: bool, threads: usize, ctx: &Ctx) -> serde_json::Value {
     let always = |_: &str| true;
-    let mut plan: Vec<(Vec<&str>, usize, usize)> = vec![(vec!["Ca", "Cb", "Cc"], 2, 2)];
+    // "Ca" is a prefix of "Cab" on purpose (component names must be compared exactly)
+    let mut plan: Vec<(Vec<&str>, usize, usize)> = vec![(vec!["Ca", "Cab", "Cc"], 2, 2)];
     if thorough {
-        plan = vec![(vec!["Ca", "Cb", "Cc"], 3, 2), (vec!["Ca", "Cb", "Cc"], 2, 3), (vec!["Ca", "Cb", "Cc", "Cd"], 2, 2)];
+        plan = vec![(vec!["Ca", "Cab", "Cc"], 3, 2), (vec!["Ca", "Cab", "Cc"], 2, 3), (vec!["Ca", "Cab", "Cc", "Cd"], 2, 2)];
     }
     let mut total_worlds = 0;
     let mut detail = Vec::new();
